@@ -143,7 +143,7 @@ func TestP1Eexec(t *testing.T) {
 	rec.Rule("plaintext: probes that observe systemdict on the dictionary stack (`/eexecprobe 42 def`, `currentdict /add known`), a data program from the C02 generator run inside `userdict begin`, 0-3 binary payloads read with `n string currentfile exch readstring <sep><n bytes> pop` or through an RD procedure `n RD <sep><n bytes>` (one separator byte, then n arbitrary bytes, n up to 1500 so that sections straddle the scanner's 512-byte buffer), optionally dictionaries left on the dictionary stack; ending in `mark currentfile closefile` + one white-space byte (then clear-text trailer: 0-600 zeros in lines, cleartomark, further tokens) or running to the end of input. Encrypted by the harness cipher; the four leading cipher bytes are drawn (any for hex; for binary: first byte not white space and one of the four not a hex digit, corner values included); laid out as hex (digit case per digit, white space of all kinds at any position after the first four digits, any line width) or binary; 0-3 white-space bytes between `eexec` and the section; clear text before the section padded so that the section starts at any offset, half of the time within 12 bytes of a multiple of 512 (the scanner's buffer size). Oracle: same interpreter fed `pre systemdict begin <plaintext> [mark] end... <trailer>`: canonical state (stack incl. the strings read, dict stack, userdict, additions to systemdict, FontDirectory, resources) equal and both runs without error. Non-trivial: section >= 20 plaintext bytes and one of {binary form, interior white space, upper-case hex, payload with a byte < 32 or >= 128, trailer executed after closefile}; distinct by file bytes.")
 	rec.Assume("decryption correctness is independent of the library: the cipher text comes from the harness implementation of the Adobe algorithm (t1ref.Encrypt, key 55665, c1 52845, c2 22719)")
 	cfg := psgen.Config{TypeLiteral: true}
-	ev.SetupRapid(12000, 480000)
+	ev.SetupRapid(60000, 1500000)
 	rapid.Check(t, func(t *rapid.T) {
 		c := &c05case{}
 		var feat []string
